@@ -3,7 +3,7 @@
 //! Small-scope enumeration of documents, round trip through the real writers and loaders, plus
 //! independent decoders written from the format specifications in /repo/doc/FileFormats.
 
-use icy_engine::{Buffer, IceMode, Palette, SaveOptions, TextPane, Color};
+use icy_engine::{BitFont, Buffer, IceMode, Palette, SaveOptions, TextPane, Color};
 use std::path::PathBuf;
 use vharness::doc::*;
 use vharness::{catch, json, worker_main, Ctx, Engine, Fnv, Value};
@@ -826,6 +826,105 @@ fn run_c06_layers(variant: usize, ctx: &mut Ctx) {
 
 // ------------------------------------------------------------------ re-save stability (C05, second sentence)
 
+const SPECIALS: usize = 5 * 3 + 2 + 2;
+
+fn run_special(v: usize, ctx: &mut Ctx) {
+    ctx.count("evaluations", 1);
+    ctx.count("transitions", 2);
+    ctx.count("nontrivial", 1);
+    let fmts = [Fmt::Xb, Fmt::Bin, Fmt::Adf, Fmt::Idf, Fmt::Tnd];
+    let (fmt, kind) = if v < 15 { (fmts[v % 5], v / 5) } else if v < 17 { (Fmt::Xb, 3 + (v - 15)) } else { (Fmt::Tnd, 5) };
+    // the width of a Tundra file lives in its SAUCE record only: the two widths around the limit the SAUCE reader trusts
+    let w = if kind == 5 { 1000 + (v - 17) as i32 } else if fmt == Fmt::Adf { 80 } else { 16 };
+    let mut buf = new_buffer(w, 2, IceMode::Ice);
+    for y in 0..2 {
+        for x in 0..w {
+            put(&mut buf, x, y, &Cell::new((b'A' as i32 + (x + 7 * y) % 26) as u32, (1 + (x + y) % 7) as u32, ((x / 2 + y) % 8) as u32));
+        }
+    }
+    let what = match kind {
+        0 => {
+            // the canvas is wider than the only layer: the last two columns are covered by nothing
+            buf.layers[0].set_size((w - 2, 2));
+            "canvas two columns wider than its layer"
+        }
+        1 => {
+            // bold flag on dark and on bright foreground colours
+            for x in 0..w.min(16) {
+                put(&mut buf, x, 1, &Cell::new(b'b' as u32, x as u32 % 16, 1).bold());
+            }
+            "bold flag on every foreground colour"
+        }
+        2 => {
+            // the layer is moved up: its first row is above the canvas, the last row of the canvas is covered by nothing
+            buf.layers[0].set_offset((0, -1));
+            "layer moved up by one row"
+        }
+        3 => {
+            // the default font, still under its own name, with an edited glyph
+            let mut f = BitFont::default();
+            if let Some(g) = f.get_glyph_mut('A') {
+                g.data[1] = 0xFF;
+                g.data[8] ^= 0x66;
+            }
+            buf.set_font(0, f);
+            "default font edited in place under its own name"
+        }
+        5 => "width at the limit of what a SAUCE record is trusted with",
+        _ => {
+            let mut f = BitFont::default();
+            if let Some(g) = f.get_glyph_mut('z') {
+                g.data[15] = 0x81;
+            }
+            f.calculate_checksum();
+            buf.set_font(0, f);
+            "font named like the default font with another glyph table"
+        }
+    };
+    let desc = json!({"format": fmt.ext(), "document": what, "width": w});
+    let bytes = match save(&buf, fmt, false, matches!(fmt, Fmt::Bin | Fmt::Tnd)) {
+        Ok(b) => b,
+        Err(e) => {
+            if e.starts_with("PANIC") {
+                ctx.violation(format!("{}:special-save:{}", e.replace("PANIC ", ""), fmt.ext()), desc);
+            } else {
+                ctx.count("special_refused", 1);
+            }
+            return;
+        }
+    };
+    let got = match load(fmt, &bytes) {
+        Ok(b) => b,
+        Err(e) => {
+            ctx.violation(format!("diff:{}:special:load-refused-own-output", fmt.ext()), json!({"doc": desc, "error": e}));
+            return;
+        }
+    };
+    let mut f = Fnv::new();
+    f.bytes(&bytes);
+    ctx.state(f.finish());
+    if got.get_width() != w || got.get_height() != 2 {
+        ctx.violation(format!("diff:{}:special:size", fmt.ext()), json!({"doc": desc, "got": [got.get_width(), got.get_height()]}));
+        return;
+    }
+    for y in 0..2 {
+        for x in 0..w {
+            let (a, b) = (shown(&buf, x, y), shown(&got, x, y));
+            let same = if !a.visible { matches!(b.ch, 0 | 32) && b.bg == (0, 0, 0) } else { a.ch == b.ch && a.fg == b.fg && a.bg == b.bg };
+            if !same {
+                ctx.violation(format!("diff:{}:special:cell:{}", fmt.ext(), what.split(' ').next().unwrap_or("")), json!({"doc": desc, "x": x, "y": y, "source": shown_json(&a), "loaded": shown_json(&b)}));
+                return;
+            }
+        }
+    }
+    if kind == 3 || kind == 4 {
+        let (a, b) = (buf.get_font(0).map(font_glyph_bytes), got.get_font(0).map(font_glyph_bytes));
+        if a != b {
+            ctx.violation(format!("diff:{}:special:font-glyphs", fmt.ext()), json!({"doc": desc}));
+        }
+    }
+}
+
 fn resave(fmt: Fmt, desc: &str, bytes: &[u8], ctx: &mut Ctx) {
     ctx.count("evaluations", 1);
     ctx.count("transitions", 1);
@@ -836,6 +935,11 @@ fn resave(fmt: Fmt, desc: &str, bytes: &[u8], ctx: &mut Ctx) {
             return;
         }
     };
+    // the default save path (colour optimiser in front of the writer) must not panic on an accepted file either
+    if let Err(p) = catch(|| first.to_bytes(fmt.ext(), &SaveOptions::default())) {
+        ctx.violation(format!("{}:resave-default-options", p.signature()), json!({"file": desc}));
+        return;
+    }
     ctx.count("resave_accepted", 1);
     let has_sauce = first.has_sauce();
     let again = match save(&first, fmt, true, has_sauce || matches!(fmt, Fmt::Bin)) {
@@ -845,6 +949,7 @@ fn resave(fmt: Fmt, desc: &str, bytes: &[u8], ctx: &mut Ctx) {
                 ctx.violation(format!("{}:resave", e.replace("PANIC ", "")), json!({"file": desc}));
             } else {
                 ctx.count("resave_writer_refused", 1);
+                ctx.count(&format!("resave_writer_refused:{}:{}", fmt.ext(), e.chars().take(70).collect::<String>()), 1);
             }
             return;
         }
@@ -895,6 +1000,9 @@ enum Job {
     /// a batch of enumerated rows, generated when the job runs (36 M rows do not fit into every worker's memory)
     C06Rows { width: u32, base: u64, n: u64, small: bool, ice: bool },
     Resave(Fmt, String, Vec<u8>),
+    /// documents outside the plain "one full layer" shape: a canvas larger than its layer, bold flags on bright colours, the default
+    /// font edited in place under its own name
+    Special(usize),
 }
 
 struct BinFmt {
@@ -939,6 +1047,9 @@ fn rows_upto3(alpha: &[Cell]) -> Vec<Vec<Cell>> {
 fn build_c05(tier: &str) -> Vec<Job> {
     let thorough = tier == "thorough";
     let mut jobs = Vec::new();
+    for v in 0..SPECIALS {
+        jobs.push(Job::Special(v));
+    }
     // ---- XBin: dimension menu with <= 2 deviations from the base document
     let ws = [80, 1, 2, 79, 81, 160, 4096];
     let hs = [25, 1, 2, 24, 26, 200];
@@ -1209,6 +1320,7 @@ impl Engine for BinFmt {
             Job::C06(d) => run_c06_doc(d, ctx),
             Job::C06Layers(v) => run_c06_layers(*v, ctx),
             Job::C06Rows { width, base, n, small, ice } => run_c06_doc(&c06_doc(c6_rows_batch(*width, *base, *n, *small), *width as i32, *ice), ctx),
+            Job::Special(v) => run_special(*v, ctx),
             Job::Resave(f, desc, bytes) => resave(*f, desc, bytes, ctx),
         }
     }
@@ -1218,6 +1330,7 @@ impl Engine for BinFmt {
             Job::C06(d) => json!({"engine": "xbin-compression", "idx": idx, "doc": d.json(), "key": "xbin-compression"}),
             Job::C06Layers(v) => json!({"engine": "xbin-compression", "idx": idx, "layered_document_variant": v, "key": "xbin-compression"}),
             Job::C06Rows { width, base, n, small, ice } => json!({"engine": "xbin-compression", "idx": idx, "rows": format!("rows {base}..{} of width {width} over the {} value alphabet", base + n, if *small { 8 } else { 18 }), "ice": ice, "key": "xbin-compression"}),
+            Job::Special(v) => json!({"engine": "special-documents", "idx": idx, "variant": v, "key": "special"}),
             Job::Resave(f, desc, bytes) => json!({"engine": "resave", "idx": idx, "format": f.ext(), "file": desc, "bytes": vharness::bytes_to_json(&bytes[..bytes.len().min(6000)]), "len": bytes.len(), "key": format!("resave:{}", f.ext())}),
         }
     }
@@ -1235,7 +1348,7 @@ impl Engine for BinFmt {
             match j {
                 Job::Doc(_) => docs += 1,
                 Job::C06(_) | Job::C06Rows { .. } | Job::C06Layers(_) => c6 += 1,
-                Job::Resave(..) => rs += 1,
+                Job::Resave(..) | Job::Special(_) => rs += 1,
             }
         }
         json!({"documents": docs, "c06_batches": c6, "resave_files": rs, "c06": self.c06_meta})
